@@ -121,6 +121,15 @@ func (g *genC05) Block(w *World, b int) Block {
 		st.Fault = "boundary_values"
 		blk.Steps = append(blk.Steps, st)
 	}
+	if rng.Chance(1, 40) {
+		// governance touches the emission schedule mid-run (values a proposal could plausibly carry)
+		ps := Step{Kind: "param", S: map[string]string{"module": "mint"}, N: map[string]int64{
+			"mint_decrease": rng.Pick64(0, 6, blocksPerYear, 2*blocksPerYear, 2_000_000*blocksPerYear, 10_000_000*blocksPerYear)}}
+		if rng.Chance(1, 2) {
+			ps.S["via"] = "gov"
+		}
+		blk.Steps = append([]Step{ps}, blk.Steps...)
+	}
 	n := rng.Intn(4)
 	for i := 0; i < n; i++ {
 		v := 1 + rng.Intn(g.nAcc-1)
